@@ -270,12 +270,13 @@ Lemma s3_put_src_is_modelled : s3_put_is_modelled = true.
 Proof. vm_compute. reflexivity. Qed.
 
 (* the translated table: every class _raise_for_status can raise is a chunk-store error that the S3 error map leaves
-   alone, and the range it covers is all of 4xx and 5xx *)
+   alone, and the range it covers is all of 3xx (a redirect requests could not follow: repaired finding C08-F5g), 4xx
+   and 5xx *)
 Definition status_classes : list exn :=
   map (fun row => exn_or_base (snd row)) c08_s3_status_rows ++ [exn_or_base c08_s3_status_else].
 Lemma status_classes_ok :
   forallb (fun e => isinst e K_ChunkStoreError && exn_eqb (standard_errors (error_map SS3) e) e) status_classes = true
-  /\ c08_s3_status_range = (400, 600)
+  /\ c08_s3_status_range = (300, 600)
   /\ isinst (standard_errors (error_map SS3) R_RetryError) K_ChunkStoreError = true
   /\ forallb (fun e => negb (isinst e R_RequestException) || isinst (standard_errors (error_map SS3) e) K_ChunkStoreError)
              all_exn = true.
@@ -292,21 +293,21 @@ Proof.
   - apply in_or_app. right. simpl. auto.
 Qed.
 
-(* EVERY error status that is not ignored raises, whatever the status: 4xx and 5xx alike *)
+(* EVERY non-success final status that is not ignored raises, whatever the status: 3xx, 4xx and 5xx alike *)
 Lemma raise_for_status_total : forall ign s,
-  400 <= s < 600 -> memZ s ign = false -> exists e, raise_for_status ign s = Some e /\ In e status_classes.
+  300 <= s < 600 -> memZ s ign = false -> exists e, raise_for_status ign s = Some e /\ In e status_classes.
 Proof.
   intros ign s Hs Hi. destruct status_classes_ok as [_ [R _]].
   destruct (raise_for_status ign s) eqn:E.
   - exists e. split; auto. eapply raise_for_status_class; eauto.
   - exfalso. unfold raise_for_status in E. rewrite R in E. cbn [fst snd] in E. rewrite Hi in E.
-    assert ((400 <=? s) && (s <? 600) = true) as X by (apply andb_true_iff; split; [apply Z.leb_le|apply Z.ltb_lt]; lia).
+    assert ((300 <=? s) && (s <? 600) = true) as X by (apply andb_true_iff; split; [apply Z.leb_le|apply Z.ltb_lt]; lia).
     rewrite X in E. simpl in E. discriminate.
 Qed.
-Lemma raise_for_status_only_errors : forall ign s e, raise_for_status ign s = Some e -> 400 <= s < 600 /\ memZ s ign = false.
+Lemma raise_for_status_only_errors : forall ign s e, raise_for_status ign s = Some e -> 300 <= s < 600 /\ memZ s ign = false.
 Proof.
   intros ign s e H. destruct status_classes_ok as [_ [R _]]. unfold raise_for_status in H. rewrite R in H. cbn [fst snd] in H.
-  destruct ((400 <=? s) && (s <? 600)) eqn:A; [|discriminate]. destruct (memZ s ign) eqn:B; [discriminate|].
+  destruct ((300 <=? s) && (s <? 600)) eqn:A; [|discriminate]. destruct (memZ s ign) eqn:B; [discriminate|].
   apply andb_true_iff in A. destruct A as [A1 A2]. apply Z.leb_le in A1. apply Z.ltb_lt in A2. split; [lia|reflexivity].
 Qed.
 
@@ -318,9 +319,9 @@ Proof.
 Qed.
 
 Lemma every_error_status_raises : forall ign s,
-  (400 <= s < 600 -> memZ s ign = false ->
+  (300 <= s < 600 -> memZ s ign = false ->
    exists e, raise_for_status ign s = Some e /\ standard_errors (error_map SS3) e = e /\ isinst e K_ChunkStoreError = true)
-  /\ (forall e, raise_for_status ign s = Some e -> 400 <= s < 600 /\ memZ s ign = false).
+  /\ (forall e, raise_for_status ign s = Some e -> 300 <= s < 600 /\ memZ s ign = false).
 Proof.
   intros ign s. split.
   - intros Hs Hi. destruct (raise_for_status_total ign s Hs Hi) as [e [E1 E2]]. exists e.
@@ -328,11 +329,11 @@ Proof.
   - exact (raise_for_status_only_errors ign s).
 Qed.
 
-(* an answer the server gives that means "refused / not done": an error status that is not ignored, or an attempt that
-   fails inside requests *)
+(* an answer the server gives that means "refused / not done": a 3xx / 4xx / 5xx status that is not ignored, or an attempt
+   that fails inside requests *)
 Definition refusal (ign : list Z) (a : answer) : Prop :=
   match a with
-  | AStatus s => 400 <= s < 600 /\ memZ s ign = false
+  | AStatus s => 300 <= s < 600 /\ memZ s ign = false
   | AFail e => isinst e R_RequestException = true
   end.
 
@@ -359,7 +360,7 @@ Qed.
 (* conversely: request() returns only with a status the server really gave and that is not an (unignored) error *)
 Theorem request_returns_only_accepted : forall fl ign answers n s,
   request_run fl n ign answers = Ret s ->
-  In (AStatus s) (firstn (request_attempts fl n answers) answers) /\ ~ (400 <= s < 600 /\ memZ s ign = false).
+  In (AStatus s) (firstn (request_attempts fl n answers) answers) /\ ~ (300 <= s < 600 /\ memZ s ign = false).
 Proof.
   intros fl ign answers. induction answers as [|a rest IH]; intros n s H; cbn [request_run] in H; [discriminate|].
   destruct a as [s0|e]; [|discriminate]. cbn [request_attempts].
@@ -398,7 +399,7 @@ Qed.
 Theorem s3_put_success_means_accepted : forall rc answers,
   s3_put_chunk_noraise rc true answers = Ret None ->
   exists s, In (AStatus s) (firstn (request_attempts (forcelist rc) (status_retries rc) answers) answers)
-            /\ ~ (400 <= s < 600).
+            /\ ~ (300 <= s < 600).
 Proof.
   intros rc answers H. destruct put_chunk_ignores_nothing as [P _].
   unfold s3_put_chunk_noraise, s3_put_chunk in H. rewrite P in H. simpl negb in H. cbv iota in H.
@@ -451,7 +452,7 @@ Theorem s3_mark_complete_reports : forall rc bucket marker,
       exists e, s3_mark_complete rc bucket marker = Raise e /\ isinst e K_ChunkStoreError = true)
   /\ (s3_mark_complete rc bucket marker = Ret tt ->
       exists s, In (AStatus s) (firstn (request_attempts (forcelist rc) (status_retries rc) marker) marker)
-                /\ ~ (400 <= s < 600)).
+                /\ ~ (300 <= s < 600)).
 Proof.
   intros rc bucket marker. destruct put_chunk_ignores_nothing as [_ [P2 P3]].
   unfold s3_mark_complete. rewrite P2, P3. split; [|split].
@@ -466,6 +467,105 @@ Proof.
     intro Hs. apply I2. split; [exact Hs|reflexivity].
 Qed.
 
+(* ---------- C08-F5g repaired: FULL strength, no guard on the kind of refusal ----------
+   The answers of the server are final HTTP responses (status 200..599: RFC 9110 knows no other final status, 1xx are
+   interim responses that http.client consumes) or attempts that fail inside requests.  Whatever they are: if no attempt
+   that was made got a 2xx answer (nothing was stored), the put is reported -- put_chunk raises a chunk-store error and
+   put_chunk_noraise returns that error object; conversely success is reported only when the object was stored. *)
+Definition final_answer (a : answer) : Prop :=
+  match a with
+  | AStatus s => 200 <= s < 600
+  | AFail e => isinst e R_RequestException = true
+  end.
+
+Lemma stored_after_cons_status : forall fl n s rest,
+  stored_after fl n (AStatus s :: rest) =
+  accepted s || (if memZ s fl then match n with O => false | S n' => stored_after fl n' rest end else false).
+Proof.
+  intros fl n s rest. unfold stored_after. cbn [request_attempts].
+  destruct (memZ s fl); [destruct n as [|n']|]; cbn [firstn existsb]; try rewrite firstn_O; cbn [existsb]; reflexivity.
+Qed.
+
+Lemma unstored_request_raises : forall fl answers n,
+  Forall final_answer answers -> stored_after fl n answers = false ->
+  exists e, request_run fl n [] answers = Raise e /\ isinst e K_ChunkStoreError = true.
+Proof.
+  intros fl answers. destruct status_classes_ok as [_ [_ [RR RQ]]]. rewrite forallb_forall in RQ.
+  induction answers as [|a rest IH]; intros n HF HS.
+  - simpl. eexists. split; [reflexivity|]. vm_compute. reflexivity.
+  - inversion HF as [|? ? Ha Hrest]; subst. destruct a as [s|e]; cbn [request_run].
+    + rewrite stored_after_cons_status in HS. apply orb_false_iff in HS. destruct HS as [Hacc HS].
+      destruct (memZ s fl).
+      * destruct n as [|n']; [eexists; split; [reflexivity|exact RR]|]. apply IH; assumption.
+      * rewrite request_src_is_modelled. simpl in Ha.
+        assert (Hs : 300 <= s < 600).
+        { unfold accepted in Hacc. apply andb_false_iff in Hacc. destruct Hacc as [H|H].
+          - apply Z.leb_gt in H. lia.
+          - apply Z.ltb_ge in H. lia. }
+        destruct (raise_for_status_total [] s Hs eq_refl) as [e [E1 E2]]. rewrite E1.
+        destruct (status_class_reported e E2) as [S1 S2]. rewrite S1. eexists. split; [reflexivity|exact S2].
+    + eexists. split; [reflexivity|]. simpl in Ha.
+      pose proof (all_exn_complete e) as Hin. specialize (RQ e Hin). rewrite Ha in RQ. simpl in RQ. exact RQ.
+Qed.
+
+Theorem s3_failed_put_is_reported : forall rc answers,
+  Forall final_answer answers ->
+  stored_after (forcelist rc) (status_retries rc) answers = false ->
+  exists e, s3_put_chunk rc true answers = Raise e /\ isinst e K_ChunkStoreError = true
+            /\ s3_put_chunk_noraise rc true answers = Ret (Some e).
+Proof.
+  intros rc answers HF HS. destruct put_chunk_ignores_nothing as [P _].
+  unfold s3_put_chunk_noraise, s3_put_chunk. rewrite P. simpl negb. cbv iota.
+  destruct (unstored_request_raises (forcelist rc) answers (status_retries rc) HF HS) as [e [E1 E2]].
+  rewrite E1. exists e. split; [reflexivity|]. split; [exact E2|].
+  assert (caught noraise_returned e = true) as ->; [|reflexivity].
+  assert (noraise_returned = [K_ChunkStoreError]) as -> by reflexivity. unfold caught. simpl. rewrite E2. reflexivity.
+Qed.
+
+Theorem s3_put_success_means_stored : forall rc answers,
+  Forall final_answer answers ->
+  (s3_put_chunk rc true answers = Ret tt \/ s3_put_chunk_noraise rc true answers = Ret None) ->
+  stored_after (forcelist rc) (status_retries rc) answers = true.
+Proof.
+  intros rc answers HF H. destruct (stored_after (forcelist rc) (status_retries rc) answers) eqn:E; [reflexivity|].
+  destruct (s3_failed_put_is_reported rc answers HF E) as [e [E1 [_ E3]]]. destruct H as [H|H]; congruence.
+Qed.
+
+(* every refusal is a final answer that stores nothing, so the guarded statements above are instances *)
+Lemma refusal_is_final : forall a, refusal [] a -> final_answer a.
+Proof. intros [s|e] H; simpl in *; [lia|exact H]. Qed.
+
+(* put_dask_array, full strength: a block of which nothing was stored has its error object in its slot *)
+Theorem s3_put_dask_array_reports_unstored : forall rc blocks res,
+  s3_put_dask_array rc blocks = Ret res ->
+  forall i a, nth_error blocks i = Some a -> Forall final_answer a ->
+    stored_after (forcelist rc) (status_retries rc) a = false ->
+    exists e, nth_error res i = Some (Some e) /\ isinst e K_ChunkStoreError = true.
+Proof.
+  intros rc blocks. induction blocks as [|b t IH]; intros res H; simpl in H.
+  - inversion H; subst. intros i a Hn. destruct i; discriminate.
+  - destruct (s3_put_chunk_noraise rc true b) as [r|e] eqn:E; [|discriminate].
+    destruct (s3_put_dask_array rc t) as [l|e] eqn:E2; [|discriminate]. inversion H; subst; clear H.
+    intros i a Hn HF HS. destruct i as [|i].
+    + simpl in Hn. inversion Hn; subst.
+      destruct (s3_failed_put_is_reported rc a HF HS) as [e [_ [E3 E4]]]. rewrite E4 in E. inversion E; subst.
+      exists e. split; [reflexivity|exact E3].
+    + simpl in Hn. simpl. apply (IH l eq_refl i a Hn HF HS).
+Qed.
+
+(* mark_complete, full strength: success is reported only when the marker object was stored *)
+Theorem s3_mark_complete_success_means_stored : forall rc bucket marker,
+  Forall final_answer marker -> s3_mark_complete rc bucket marker = Ret tt ->
+  stored_after (forcelist rc) (status_retries rc) marker = true.
+Proof.
+  intros rc bucket marker HF H. destruct put_chunk_ignores_nothing as [_ [P2 P3]].
+  unfold s3_mark_complete in H. rewrite P2, P3 in H.
+  destruct (request_run (forcelist rc) (status_retries rc) [409] bucket); [|discriminate].
+  destruct (stored_after (forcelist rc) (status_retries rc) marker) eqn:E; [reflexivity|].
+  destruct (unstored_request_raises (forcelist rc) marker (status_retries rc) HF E) as [e [E1 _]].
+  rewrite E1 in H. discriminate.
+Qed.
+
 (* teeth: with the status test of seeded change 8 (`400 <= status < 500`) a PUT answered 507 reports success *)
 Definition raise_for_status_4xx_only (ign : list Z) (s : Z) : option exn :=
   if (400 <=? s) && (s <? 500) && negb (memZ s ign) then Some K_StoreUnavailable else None.
@@ -477,13 +577,16 @@ Lemma client_errors_only_refutes :
   /\ s3_put_chunk_noraise (default_retry 1) true [AStatus 503; AStatus 507] = Ret (Some K_StoreUnavailable).
 Proof. vm_compute. repeat split; reflexivity. Qed.
 
-(* finding C08-F5g as a theorem of the faithful model: a PUT answered with a redirect status that requests cannot follow
-   (301 PermanentRedirect without a Location header, as AWS sends for the wrong regional endpoint) is neither accepted
-   nor an error status: put_chunk / put_chunk_noraise report success and nothing is stored.  The "reported" theorems
-   above therefore carry the guard "every answer is a 4xx / 5xx status or a failure inside requests". *)
-Lemma failed_put_is_reported_refuted :
-  exists s, accepted s = false /\ error_status s = false
-            /\ s3_put_chunk (default_retry 0) true [AStatus s] = Ret tt
-            /\ s3_put_chunk_noraise (default_retry 0) true [AStatus s] = Ret None
-            /\ stored_after (forcelist (default_retry 0)) (status_retries (default_retry 0)) [AStatus s] = false.
-Proof. exists 301. vm_compute. repeat split; reflexivity. Qed.
+(* finding C08-F5g BEFORE the repair: with the status test of the unrepaired source (`400 <= status < 600`) a PUT answered
+   with a redirect status that requests cannot follow (301 PermanentRedirect without a Location header, as AWS sends
+   for the wrong regional endpoint) raised nothing, so put_chunk / put_chunk_noraise reported success although nothing
+   was stored; the translated test raises StoreUnavailable and the put is reported *)
+Definition raise_for_status_errors_only (ign : list Z) (s : Z) : option exn :=
+  if (400 <=? s) && (s <? 600) && negb (memZ s ign) then Some K_StoreUnavailable else None.
+Lemma failed_put_is_reported_refuted_before_fix :
+  raise_for_status_errors_only [] 301 = None /\ accepted 301 = false
+  /\ raise_for_status [] 301 = Some K_StoreUnavailable
+  /\ s3_put_chunk (default_retry 0) true [AStatus 301] = Raise K_StoreUnavailable
+  /\ s3_put_chunk_noraise (default_retry 0) true [AStatus 301] = Ret (Some K_StoreUnavailable)
+  /\ stored_after (forcelist (default_retry 0)) (status_retries (default_retry 0)) [AStatus 301] = false.
+Proof. vm_compute. repeat split; reflexivity. Qed.
